@@ -2,3 +2,4 @@ pub mod crdt;
 pub mod stream;
 pub mod wire;
 pub mod cmdgen;
+pub mod linz;
